@@ -94,6 +94,39 @@ def fix_close_depth(lines):
     return lines
 
 
+def add_pp_chains(lines, rng):
+    """wrap some `head` + `{` pairs into an #if / #elif / #else chain whose branches each open the block with another statement head:
+    the alternative heads and braces (kind 'pp' for the model, listed in the returned map: line index -> index of the line of the first
+    branch it must line up with) sit in the same block as the first branch, so they must get the same columns"""
+    out, ref = [], {}
+    k = 0
+    while k < len(lines):
+        d, toks, kind = lines[k]
+        if (kind == "head" and toks and toks[0] in ("if", "while", "for") and k + 1 < len(lines) and lines[k + 1][2] == "open"
+                and d >= 1 and rng.random() < 0.35):
+            nalt = rng.choice([1, 2, 2, 3])
+            prev = next((x for x in reversed(out) if x[2] not in ("pp", "cmt", "blank")), None)
+            after_else = prev is not None and prev[1] == ["else"]     # `else` + `if` is an else-if chain, not a nested statement
+            out.append((d, ["#if " + rng.choice(["A", "defined(B)", "1"])], "pp"))
+            h, o = len(out), len(out) + 1
+            out.append(lines[k])
+            out.append(lines[k + 1])
+            for a in range(nalt):
+                out.append((d, [("#else" if a == nalt - 1 and rng.random() < 0.6 else "#elif " + rng.choice(["C", "D > 1", "defined(E)"]))], "pp"))
+                alt = rng.choice(([] if after_else else [["if", "(", "alt%d" % a, ")"]]) +
+                                 [["while", "(", "alt%d" % a, ")"], ["for", "(", ";", "alt%d" % a, ";", ")"]])
+                ref[len(out)] = h
+                out.append((d, alt, "pp"))
+                ref[len(out)] = o
+                out.append((d, ["{"], "pp"))
+            out.append((d, ["#endif"], "pp"))
+            k += 2
+            continue
+        out.append(lines[k])
+        k += 1
+    return out, ref
+
+
 def col_of(line, tab):
     c = 1
     for ch in line:
@@ -127,7 +160,13 @@ def run(ctx):
             lang = rng.choice(["C", "C", "CPP", "JAVA"])
             g = gen.Gen(rng, lang=lang, depth=rng.choice([2, 3, 4]), comments=rng.random() < 0.5, preproc=False, stats=ctx.hist, nested_nobrace=rng.random() < 0.5)
             lines = g.program()
+            altref = {}
+            if lang != "JAVA" and rng.random() < 0.35:
+                lines, altref = add_pp_chains(lines, rng)
             tk, idx = toks_of(lines)
+            # expected column of every code line of the output, in order: model lines by their position, alternative branches by reference
+            pos_of = {k: n for n, k in enumerate(idx)}
+            seq = [pos_of[k] if k in pos_of else pos_of[altref[k]] for k in range(len(lines)) if k in pos_of or k in altref]
             opts = {"indent_columns": rng.choice([1, 2, 3, 4, 4, 8, 8, 16, rng.randrange(1, 17)]), "indent_with_tabs": rng.choice([0, 1, 2]),
                     "output_tab_size": rng.choice([2, 4, 8, 8, 3])}
             # brace-style offsets with a closed form: every braced statement body moves by indent_brace, everything inside a switch
@@ -158,7 +197,7 @@ def run(ctx):
             j = pipeline.Job("p%d-cmt" % i, cfg, sc.write(txt, ext), lang, {"prog": i, "opts": opts, "text": txt, "cmt_twin": True})
             jobs.append(j)
             lays.append(j)
-            progs.append((lines, tk, idx, opts, lays, lang))
+            progs.append((lines, tk, idx, opts, lays, lang, seq))
         ctx.log("runs:", len(jobs))
         pipeline.run_jobs(exe, jobs, hooks=False)
         model = common.run_driver(["indent.run2 %d %d %d %s" % (p[3]["indent_columns"], p[3].get("indent_brace", 0), p[3].get("indent_switch_case", 0),
@@ -166,7 +205,7 @@ def run(ctx):
         base_ans = common.run_driver(["indent.run2 %d 0 0 %s" % (p[3]["indent_columns"], p[1] or "-") for p in progs])
         common_base = {id(p[0]): [int(x) for x in a.split() if x != "-"] for p, a in zip(progs, base_ans)}
         bad_m = bad_c = skipped = bad_f = 0
-        for (lines, tk, idx, opts, lays, lang), mans in zip(progs, model):
+        for (lines, tk, idx, opts, lays, lang, seq), mans in zip(progs, model):
             want = [int(x) for x in mans.split() if x != "-"]
             # cross-check of the Lean model's offsets against the counting formula (C18_column_closed_form_offsets), computed independently
             sh = shifts(lines, idx)
@@ -175,7 +214,10 @@ def run(ctx):
                 formula = [w + nb * opts.get("indent_brace", 0) + ns * opts.get("indent_switch_case", 0) for w, (nb, ns) in zip(base, sh)]
                 if formula != want:
                     bad_f += 1
-            ctx.case(tk + str(sorted(opts.items())), nontrivial="o" in tk)
+            if len(seq) != len(want):
+                ctx.count("pp-chains")
+            want = [want[p] for p in seq] if all(p < len(want) for p in seq) else want
+            ctx.case(tk + str(sorted(opts.items())) + str(len(seq)), nontrivial="o" in tk)
             cols_per_layout = []
             for j in lays:
                 if j.res["rc"] != 0:
@@ -189,7 +231,7 @@ def run(ctx):
                         if "*/" in st:
                             incmt = False
                         continue
-                    if not st or st.startswith("//"):
+                    if not st or st.startswith("//") or st.startswith("#"):
                         continue
                     if st.startswith("/*"):
                         incmt = "*/" not in st
